@@ -1,6 +1,6 @@
 #!/bin/bash
 # run every quick check at the given seeds; one line per check
-cd /verif
+cd "$(dirname "$0")/.."
 for seed in "$@"; do
   for n in 01 02 03 04 05 06 07 08 09 10 11 12 13 14 15 16 17 18 19 20; do
     out=$(VERIF_SEED=$seed ./check C$n quick 2>&1); rc=$?
